@@ -195,6 +195,10 @@ def run(ctx):
     # structure with another score)
     from .common import import_obligations
     import_obligations(ctx, 'C11', 'R7', only_rules={'R1'}, floor=40)
+    # R8: "records the requested ... shape": the command line's values reach the constructors under their own names
+    from .common import named_argument_wiring
+    named_argument_wiring(ctx, 'R8', [b for b in f.bodies.values() if b.crate_kind == 'bin' and not b.is_closure and not b.derived],
+                          min_sites=0, what='the command line')
 
 
 def _role_of_type(ty):
